@@ -6,7 +6,7 @@ import logging
 import re
 from unittest import mock
 
-from harness import common, tlegen
+from harness import common, tlegen, numeric
 
 LEVEL = "proof"
 KNOWN_SIG = "C17:body-line-starting-with-1-not-tle"
@@ -417,7 +417,12 @@ def run(ctx):
         "constructs a Tle and a non-matching pair raises is Tle.__init__ behaviour (C09/C13), exercised here on generated TLEs only",
         "known finding %s: 200 bodies with a junk line starting '1 ' or a lone line 1 raise (modelled faithfully, C17_line1_refuted)" % KNOWN_SIG,
     ]
+    src, _names = numeric.regen_ast(ctx, "download", "the per-URI action of Downloader.fetch_plain_tle (timeout handler, status test, the two arms) "
+                                    "and the loop structure around it; requests, the body parser and logging stay the hand model's",
+                                    optional=True)
     ctx.build_props("props/C17.v")
+    if src is not None:
+        ctx.build_props("props/C17_source.v")
     logging.disable(logging.CRITICAL)
     try:
         rng = ctx.rng
